@@ -433,3 +433,23 @@ Proof.
     destruct (lookup name (c_names c)) as [g|] eqn:Eg; [|discriminate]. simpl in Hd.
     inversion Hd; subst x. rewrite group_text_cap. eapply inv_bound; eauto.
 Qed.
+
+(* ---- nothing but whole paths match: for every pattern and environment ------------- *)
+Theorem match_whole_path : forall e p r names path x,
+  regex_of_pattern e p = Ok (r, names) -> rmatch r path 0 = MSome x ->
+  m_end x = length path \/ (S (m_end x) = length path /\ skipn (m_end x) path = [10%N]).
+Proof.
+  intros e p r names path x Hr Hm. unfold regex_of_pattern in Hr.
+  destruct (rx_pattern_with _ _ p _) as [[items c]|t]; [|discriminate]. simpl in Hr.
+  destruct (c_err c); [discriminate|]. inversion Hr; subst r names. clear Hr.
+  apply rmatch_sem in Hm. destruct Hm as [sF [Hsem Hx]]. subst x. simpl.
+  pose proof (sem_consumed _ _ _ Hsem) as [t Hc].
+  destruct (at_path_consumed _ _ _ _ (at_path_start path) Hc) as [[_ [A2 A3]] _].
+  apply sem_cat_list, sem_list_app in Hsem. destruct Hsem as [s1 [_ Hsb]].
+  inv_sl. match goal with H : sem (Eol false) _ _ |- _ => inv1 H end.
+  match goal with H : at_eol false sF = true |- _ => apply at_eol_false in H; rename H into He end.
+  assert (Hl : length (suf sF) = length path - pos sF) by (rewrite A2; apply skipn_length).
+  destruct He as [He|He]; rewrite He in Hl; simpl in Hl.
+  - left. lia.
+  - right. split; [lia|]. rewrite <- A2. exact He.
+Qed.
